@@ -211,7 +211,7 @@ def text_read(fmt, endian, f):
 def arc_write(files, rng, padded=True, permute_bodies=True, unaligned=False, gaps=False, count_first=True,
               extra_labels=True, shuffle_tables=False, drop=None, bad_name=None, bad_range=None, count_delta=0,
               junk_text=False, raw_offset=None, dup_strings=False, tail=0.0, end_exact=False, share=False, empty_last=False,
-              indices="seq", decoys=None, data_label="base"):
+              indices="seq", decoys=None, data_label="base", sentinel=True):
     """files: [(name bytes, body bytes)] in RECORD order.  Returns (image, expected) with expected = 'ok' or the
     name of the error the property demands.  Knobs: header padding, body placement (order, alignment, gaps),
     Count before/after Info, extra labels; error variants: drop = 'count' | 'info' (label missing),
@@ -224,7 +224,8 @@ def arc_write(files, rng, padded=True, permute_bodies=True, unaligned=False, gap
     address equals the size of the data region when end_exact is set).  decoys = 'count' | 'info' | 'both': the label also
     sits on HIGHER addresses (a word holding a wrong count / a place that holds no table): the lowest address carrying the
     label is the one that counts (find_label_address after the repair 10408e9), so the expectation is unchanged; the
-    decoy entries precede the real ones in the label list half of the time.  indices = what the records' index field holds:
+    decoy entries precede the real ones in the label list half of the time.  sentinel = False: no junk word at data offset 0
+    of an un-padded image (bodies from offset 0).  indices = what the records' index field holds:
     'seq' (0, 1, 2 ...), 'zero' (all 0), 'dup' (some values repeated), 'random' (arbitrary 32-bit values) - the property
     keys entries by NAME; the index field carries no meaning for extraction (seeded change C16-3 collected records in a map
     keyed by it and lost records sharing a value).  The knobs draw random numbers only when switched on."""
@@ -239,8 +240,10 @@ def arc_write(files, rng, padded=True, permute_bodies=True, unaligned=False, gap
     d = bytearray()
     if padded:
         d += bytes(0x60)
-    else:
+    elif sentinel:
         d += struct.pack("<I", rng.randint(1, 0xFFFFFFFF))     # first word non-zero: no padded header
+    # sentinel=False: an un-padded image whose bodies start at data offset 0 ("any placement of file bodies"); when its
+    # first data word is 0 the library takes it for a padded image (known finding F27)
     base = 0x60 if padded else 0
     order = list(range(len(files)))
     if permute_bodies:
